@@ -37,7 +37,8 @@ ASSUMPTIONS = (
 EXPECTED_PROBES = ("reload-because-stale", "same-object-fast-path", "edit-within-one-second-zone", "compile-straddles-second",
                    "lru-eviction", "evicted-put-entry", "broken-content-raised", "cached-file-gone", "module-file-reused",
                    "hostile-uri-rejected", "faulted-call-raised", "render-nested-lookup-raised", "stable-hit",
-                   "stale-within-second-served", "unreadable-raised", "no-file-toplevel")
+                   "stale-within-second-served", "unreadable-raised", "no-file-toplevel", "symlink-repointed",
+                   "symlink-target-edited-in-place")
 KINDS = ("plain", "inc", "inh", "base")
 ADVANCES_WHOLE = (1, 1, 1, 2, 2, 5, 3600)
 ADVANCES_SUB = (0.1, 0.5, 0.999, 1, 1.001, 2, 5, 3600)
@@ -190,7 +191,15 @@ def generate(rng, tier, idx, force=None):
             ops.append(["write", i, d, mode])
         elif r < 0.33 and rng.random() < 0.5:
             # the URI is a symbolic link that is re-pointed to a new release of the file
-            ops.append(["relink", i, d])
+            # ... or, when the path already is a link, new content written to the link's target in place
+            ops.append(["relink", i, d, rng.random() < 0.4])
+            if rng.random() < 0.5:
+                # a deployment through a link, later patched in place: load, wait, edit the link's target, look again
+                ops.append(["get", uspecs[i]["uri"]])
+                ops.append(["advance", rng.choice(adv)])
+                ops.append(["relink", i, d, True])
+                ops.append(["advance", rng.choice(adv)])
+                ops.append(["get", uspecs[i]["uri"]])
         elif r < 0.36:
             ops.append(["delete", i, d])
         elif r < 0.41:
@@ -491,14 +500,21 @@ class Harness:
             v = self.versions.get((i, d), 0) + 1
             self.versions[(i, d)] = v
             tag = (i, d, v)
-            rel = posixpath.join(self.root, "releases", "u%dd%dv%d.html" % tag)
-            m = w.put_file(rel, content(self.uspecs[i], tag, "ok"))
-            os.makedirs(posixpath.dirname(p), exist_ok=True)
-            tmp = p + ".lnk~"
-            if os.path.lexists(tmp):
-                os.remove(tmp)
-            os.symlink(rel, tmp)
-            os.rename(tmp, p)
+            if len(op) > 3 and op[3] and os.path.islink(p) and os.path.exists(p):
+                # the link stays as it is (and keeps its own, older, timestamps); its target gets the new content
+                m = w.put_file(os.path.realpath(p), content(self.uspecs[i], tag, "ok"))
+                self.probes.hit("symlink-target-edited-in-place")
+            else:
+                rel = posixpath.join(self.root, "releases", "u%dd%dv%d.html" % tag)
+                m = w.put_file(rel, content(self.uspecs[i], tag, "ok"))
+                os.makedirs(posixpath.dirname(p), exist_ok=True)
+                tmp = p + ".lnk~"
+                if os.path.lexists(tmp):
+                    os.remove(tmp)
+                os.symlink(rel, tmp)
+                ns = int(round(m * 1e9))
+                os.utime(tmp, ns=(ns, ns), follow_symlinks=False)  # the link itself is created "now" on the simulated clock
+                os.rename(tmp, p)
             w.unreadable.discard(p)
             self.model.unreadable.discard(p)
             self.model.file_written(p, tag, m, "ok")
